@@ -2,6 +2,7 @@
 #include <igris/sync/syslock.h>
 #include <igris/syncxx/event.h>
 #include <igris/util/macro.h>
+#include <igris/util/verif_point.h>
 
 struct linux_waiter
 {
@@ -23,6 +24,7 @@ int wait_current_schedee(igris::dlist_base *head, int priority, void **future)
 
     system_lock();
 
+    IGRIS_VERIF_POINT_OBJ("wait.enqueue", &waiter.event);
     if (priority)
         head->move_front(waiter.w.lnk);
     else
@@ -32,6 +34,7 @@ int wait_current_schedee(igris::dlist_base *head, int priority, void **future)
     // auto save = system_lock_save();
     waiter.event.wait();
     // system_lock_restore(save);
+    IGRIS_VERIF_POINT_OBJ("wait.return", &waiter.event);
 
     *future = (void *)waiter.w.future;
     return 0;
